@@ -55,10 +55,18 @@ OnBusOff(e) ==
         v3 == Add(v2, e.raised \/ {d \in bad : exp(d) # 0} = {}, "NothingElseSwitched")
     IN [s EXCEPT !.viol = v3]
 
+(* event "seqstep": a connection state reached through a history of states, against a fresh system in the same state *)
+OnSeq(e) ==
+    LET v1 == Add(s.viol, e.same_islands, "IslandsIndependentOfHistory")
+        v2 == Add(v1, e.same_success, "PowerFlowOutcomeIndependentOfHistory")
+        v3 == Add(v2, e.same_solution, "PowerFlowSolutionIndependentOfHistory")
+    IN [s EXCEPT !.viol = v3]
+
 Consume ==
     /\ l <= Len(Ev(tid))
     /\ LET e == Ev(tid)[l]
-       IN s' = CASE e.e = "conn" -> OnConn(e) [] e.e = "pflow" -> OnPflow(e) [] e.e = "busoff" -> OnBusOff(e) [] OTHER -> s
+       IN s' = CASE e.e = "conn" -> OnConn(e) [] e.e = "pflow" -> OnPflow(e) [] e.e = "busoff" -> OnBusOff(e)
+                 [] e.e = "seqstep" -> OnSeq(e) [] OTHER -> s
     /\ l' = l + 1 /\ UNCHANGED tid
     /\ (l = Len(Ev(tid))) => PrintT(ToJson([tid |-> Traces[tid].meta.tid, viol |-> s'.viol, drift |-> s'.drift, n |-> Len(Ev(tid))]))
 Spec == Init /\ [][Consume]_vars
